@@ -7,8 +7,9 @@ Model:    lean/DaskModel/Model/Counting.lean (searchsorted block combination, bi
           Model/HistogramDD.lean (histogramdd / histogram2d), Model/CountingSelect.lean (digitize, compress, extract),
           Model/RavelIndex.lean (ravel_multi_index / unravel_index, argwhere / flatnonzero / nonzero)
 Theorems: lean/DaskModel/Props/C27.lean
-Tie:      function-level `aligned_coarsen_chunks` (exhaustive: every chunking of n <= 8 / 12 against every factor),
-          `_unique_internal`, `_bincount_agg` (one and two levels), `_searchsorted_block`; Lean merge-of-chunks results vs
+Tie:      function-level `aligned_coarsen_chunks` (exhaustive: every chunking of n <= 9 / 12 against every factor, with
+          NumPy's own argsort tie-breaking passed to the model), `_unique_internal`, `_bincount_agg` (one and two levels),
+          `_searchsorted_block`, the isin kernel; Lean merge-of-chunks results vs
           the real dask results (per block where the model has blocks) and vs NumPy; API-level every routine of the
           statement vs NumPy for random chunkings (incl. zero-length chunks), duplicates, NaN, weights, bins.
 """
@@ -30,6 +31,7 @@ LEVEL_TEXT = ("Lean 4 theorems, for every chunking (zero-length chunks included)
               "on the whole array — one or more per clause of the statement: searchsorted_den (sorted a; block results with "
               "0->-1, offsets, max, -1->0 = global count of elements < / <= y); bincount_den, bincount_tree(_den) (_bincount_agg, "
               "also as the two-level tree reduction of split_every), bincount_weights_den (exact weights); histogram_den, "
+              "histogram_weights_den (exact weights), "
               "histogramdd_den, histogram2d_den (+ _rejects: coordinate arrays chunked differently raise, documented) with fixed "
               "edges and the closed last bin; digitize_den + digitize_increasing / digitize_decreasing (NumPy's documented "
               "brackets for right / left, increasing / decreasing bins); unique_merge, unique_den, unique_spec_char, "
@@ -53,9 +55,10 @@ LEVEL_TEXT = ("Lean 4 theorems, for every chunking (zero-length chunks included)
 LEVEL_NOTE = ("Trusted: Lean kernel + standard axioms; the harness; NumPy's per-chunk kernels (np.searchsorted/bincount/histogram/"
               "histogramdd/unique/digitize/ravel_multi_index/unravel_index) specified by their mathematical meaning in the model "
               "and validated against NumPy on every case; rechunk / blockwise chunk unification (C23/C25) entering as 'same "
-              "values, given common chunks' (the common chunks are read from the real unify_chunks at run time); np.argsort on "
-              "<= 16 elements being stable (exhaustive function-level diff of aligned_coarsen_chunks; the post-condition theorem "
-              "does not depend on the order).")
+              "values, given common chunks' (the common chunks are read from the real unify_chunks at run time); np.argsort only "
+              "as 'returns a permutation of the indices' (its tie-breaking is not stable here: the model takes the modification "
+              "order as a parameter, the harness recomputes it with the same NumPy calls as the code and checks that it is a "
+              "permutation; every theorem about aligned_coarsen_chunks / coarsen holds for every such order).")
 TECHNIQUE = ("Lean 4 proof (merge-of-per-chunk-results lemmas: counting, sorted-prefix, set union, offsets; loop post-condition "
              "of aligned_coarsen_chunks; Horner/divmod round trips) + differential correspondence (exhaustive small spaces + "
              "structured random streams)")
@@ -63,7 +66,7 @@ ASSUMPTIONS = [
     "np.searchsorted(sorted block, y, side) = number of elements < y (left) / <= y (right); np.bincount / np.histogram / np.histogramdd / np.unique / np.digitize count as specified in Model/Counting.lean, HistogramDD.lean, CountingSelect.lean (validated against NumPy on every case)",
     "element values enter the model only through <, <=, == (the harness interns values order-preservingly as small non-negative ints; NaN as the largest value for searchsorted)",
     "rechunk keeps the values (C23: rechunk_values_unchanged) and blockwise brings its operands to common chunks (C25); the model takes the common chunks as a parameter",
-    "np.argsort (default kind) is stable on the <= 16 chunk sizes aligned_coarsen_chunks sorts here (insertion sort); with more chunks only the proved post-condition is checked",
+    "np.argsort returns a permutation of the indices it sorts (its tie-breaking among equal chunk sizes is implementation-defined and is passed to the model as the parameter `order`; ValidOrder is checked on every order passed)",
     "histogram2d / histogramdd with a sequence of coordinate arrays require identical chunking (documented; ValueError otherwise): raising is accepted there; a DASK condition of compress longer than the axis is rejected by dask even when NumPy would ignore its all-False surplus (known finding compress:dask-condition-longer-than-axis:raises; NumPy conditions follow NumPy exactly)",
 ]
 TRUSTED = ["float bin-edge comparisons, weights and density normalisation are validated against NumPy, not modelled",
